@@ -61,7 +61,8 @@ Definition c_dec_prog := dec_prog gen_tbl gen_grp logic_version.
 Definition c_wf_prog := wf_prog gen_tbl gen_grp logic_version.
 Definition c_wf_instr := wf_instr gen_tbl gen_grp.
 Definition c_asm_base :=
-  asm_base gen_tbl gen_grp gen_names gen_agrp max_string_size back_branch_enabled_version.
+  asm_base gen_tbl gen_grp gen_names gen_agrp max_string_size back_branch_enabled_version
+           logic_version.
 Definition c_salted := salted gen_tbl salt_version.
 Definition c_stateful := stateful gen_tbl.
 Definition c_dis_sym := dis_sym gen_tbl gen_grp logic_version.
